@@ -32,7 +32,7 @@ import (
 
 func main() {
 	vf.Main("C17", "exploration",
-		"case = generated history of 10-60 storage API calls (objects: set/raw writer/pack/has/size/get typed/iter typed; refs: set/cas right,wrong,absent/get/remove/iter/pack; index, config, shallow, reflog append/read/delete, module storages) over a universe of 13 objects, 5 ref names, 5 indexes, 5 configs x object format {sha1, sha256}, replayed on memory storage and on 5 (quick) / 17 (thorough) filesystem storages drawn from {memfs, osfs} x ExclusiveAccess x UseInMemoryIdx x LargeObjectThreshold x small object cache x IndexCache {default, never-caching} ; shape = format + sequence of (op kind, model state of its target); non-trivial = history contains a failing call or a call on something written earlier; oracle = refmodel.Repo",
+		"case = generated history of 10-60 storage API calls (objects: set/raw writer/pack/has/size/get typed/iter typed; refs: set/cas right,wrong,absent/get/remove/iter/pack; index, config, shallow, reflog append/read/delete, module storages) over a universe of 13 objects, 5 ref names, 5 indexes, 5 configs x object format {sha1, sha256}, replayed on memory storage and on 5 (quick) / 11 (thorough) filesystem storages drawn from {memfs, osfs} x ExclusiveAccess x UseInMemoryIdx x LargeObjectThreshold x small object cache x IndexCache {default, never-caching} ; shape = format + sequence of (op kind, model state of its target); non-trivial = history contains a failing call or a call on something written earlier; oracle = refmodel.Repo",
 		run)
 }
 
@@ -350,8 +350,8 @@ func (k *caseT) run(nFS int) {
 }
 
 func run(c *vf.Ctx) {
-	n := c.N(300, 3000)
-	nFS := c.N(5, 17)
+	n := c.N(300, 2000)
+	nFS := c.N(5, 11)
 	us := map[string]*refmodel.Universe{"sha1": refmodel.NewUniverse("sha1", c.Rand("universe")), "sha256": refmodel.NewUniverse("sha256", c.Rand("universe"))}
 	vf.Parallel(n, 6, func(i int) {
 		r := c.Rand("case", i)
